@@ -77,8 +77,14 @@ def run_program(rec, hub, seed_rng, steps, letters="abcd", ill_rate=0.3, props=(
                 ds.drop(present[int(rng.integers(0, len(present)))], inplace=True)
             elif c == 3 and present and absent:
                 ds.replace(present[0], U[absent[0]], inplace=True)
+            def cast_into_live_set():
+                # an array made by casting a small one to the user's live set (which goes on being edited afterwards)
+                keep_ = tuple(ds.letters)[: int(rng.integers(0, len(ds.letters) + 1))]
+                small = fd.FlodymArray(dims=ds[keep_] if keep_ else fd.DimensionSet(dim_list=[]), values=np.ones(tuple(len(U[l].items) for l in keep_)))
+                return small.cast_to(ds)
+
             return (f"dimset edit {c} then declare", None, [lambda: fd.FlodymArray(dims=ds), lambda: fd.FlodymArray(dims=ds, values=np.ones(tuple(len(U[l].items) for l in ds.letters))),
-                                                        lambda: fd.FlodymArray.full(ds, 1.5)])
+                                                        lambda: fd.FlodymArray.full(ds, 1.5), cast_into_live_set, lambda: fd.FlodymArray.from_dims_superset(ds, tuple(ds.letters)[:1])])
         if kind == "ctor":
             ls2 = rand_letters()
             shape = gen.shape_of(U, ls2)
